@@ -13,7 +13,11 @@
        KUnknownAlias/KAmbiguousAlias, KUndefinedMode, KEmptyLiteral,
        KListEntryNotSimple/KListSepNotSimple, KTokenDiscard/KTokenEmit,
        KFragTwoDiscard/KFragTwoEmit/KFragDiscardAndEmit   likewise;
-       KMacroCycle             it is a macro that lies on a reference cycle.
+       KBadRange               it contains a class item with lower bound above
+                               upper bound;
+       KMacroCycle             it is a macro that lies on a reference cycle
+                               (the macro that is re-entered, not necessarily
+                               the one whose check found the cycle).
    diag_ids_declared   : the id of a positioned diagnostic is a declaration id.
    single_fault_blamed : if only declaration i0 is at fault, every positioned
                          diagnostic carries i0. *)
@@ -294,9 +298,10 @@ Definition fault_of (s : spec) (k : dkind) (pre : list decl) (d : decl) : Prop :
   | KBadName | KReservedName | KRedefined | KStartRedefined =>
       fault1 k (dnames pre) (existsb is_start pre) d
   | KUndefined | KNotAToken | KNotAMacro | KNotRuleOrToken => decl_refs_ok (canon s) d = false
-  | KUnknownAlias | KAmbiguousAlias => decl_aliases_ok false (canon s) d = false
+  | KUnknownAlias | KAmbiguousAlias => decl_aliases_ok (canon s) d = false
   | KUndefinedMode => decl_modes_ok (canon s) d = false
-  | KEmptyLiteral => forallb atom_lit_ok (decl_atoms d) = false
+  | KEmptyLiteral => decl_literals_ok d = false
+  | KBadRange => forallb atom_ranges_ok (decl_atoms d) = false
   | KListEntryNotSimple | KListSepNotSimple => decl_lists_ok d = false
   | KTokenDiscard | KTokenEmit => decl_token_actions_ok d = false
   | KFragTwoDiscard | KFragTwoEmit | KFragDiscardAndEmit => decl_frag_actions_ok d = false
@@ -317,116 +322,6 @@ Proof.
   simpl in E4. destruct k; simpl in *; try contradiction; exact E4.
 Qed.
 
-(* ---- pass 2: who is blamed --------------------------------------- *)
-Lemma forallb_false_in {A : Type} (p : A -> bool) (l : list A) (x : A) :
-  In x l -> p x = false -> forallb p l = false.
-Proof.
-  intros Hin Hp. destruct (forallb p l) eqn:E; [|reflexivity].
-  rewrite forallb_forall in E. rewrite (E x Hin) in Hp. discriminate.
-Qed.
-
-Lemma ck_atom_blame st id a k oi :
-  In (k, oi) (ck_atom st id a) -> oi = Some id /\
-  ((k = KEmptyLiteral /\ atom_lit_ok a = false) \/
-   ((k = KUndefined \/ k = KNotAMacro) /\ atom_ref_ok st a = false)).
-Proof.
-  destruct a as [cps|n|c|alts]; simpl; try contradiction.
-  - destruct cps; simpl; [|contradiction]. intros [X|[]]. inversion X; subst. auto.
-  - destruct (lookup n (n_names st)) as [[]|]; simpl; try contradiction;
-      intros [X|[]]; inversion X; subst; auto.
-Qed.
-
-Lemma ck_action_blame st id a k oi :
-  In (k, oi) (ck_action st id a) -> oi = Some id /\
-  ((k = KUndefinedMode /\ action_mode_ok st a = false) \/
-   ((k = KUndefined \/ k = KNotAToken) /\ action_ref_ok st a = false)).
-Proof.
-  destruct a as [|m| |t]; simpl; try contradiction.
-  - destruct (mem_str m (n_modes st)); simpl; [contradiction|]. intros [X|[]]. inversion X; subst. auto.
-  - destruct (lookup t (n_names st)) as [[]|]; simpl; try contradiction;
-      intros [X|[]]; inversion X; subst; auto.
-Qed.
-
-Lemma ck_pterm_blame st id t k oi :
-  In (k, oi) (ck_pterm st id t) -> oi = Some id /\
-  (((k = KUndefined \/ k = KNotRuleOrToken) /\ pterm_ref_ok st t = false) \/
-   ((k = KUnknownAlias \/ k = KAmbiguousAlias) /\ pterm_alias_ok false st t = false) \/
-   ((k = KListEntryNotSimple \/ k = KListSepNotSimple) /\ pterm_lists_ok t = false)).
-Proof.
-  induction t as [n|lit| |c kk IH|e IHe sp IHsp opt]; simpl; try contradiction.
-  - destruct (lookup n (n_names st)) as [[]|]; simpl; try contradiction;
-      intros [X|[]]; inversion X; subst; auto.
-  - destruct (String.eqb lit ""); simpl; [contradiction|].
-    destruct (count_str lit (n_aliases st)) as [|[|c]]; simpl; try contradiction;
-      intros [X|[]]; inversion X; subst; auto 6.
-  - exact IH.
-  - intros H. apply in_app_or in H. destruct H as [H|H]; [|apply in_app_or in H; destruct H as [H|H]].
-    + destruct (IHe H) as [X1 [[X2 X3]|[[X2 X3]|[X2 X3]]]]; (split; [exact X1|]); rewrite X3; simpl; auto.
-    + destruct (IHsp H) as [X1 [[X2 X3]|[[X2 X3]|[X2 X3]]]]; (split; [exact X1|]); rewrite X3; simpl;
-        rewrite ?andb_false_r; simpl; auto.
-    + destruct (pterm_simple e) eqn:Ee; simpl in H.
-      * destruct (pterm_simple sp) eqn:Es; simpl in H; [contradiction|].
-        destruct H as [X|[]]. inversion X; subst. split; [reflexivity|]. right. right.
-        rewrite ?andb_false_r. auto.
-      * destruct H as [X|[]]. inversion X; subst. split; [reflexivity|]. right. right.
-        rewrite ?andb_false_r. auto.
-Qed.
-
-Definition check_fault (st : nstate) (k : dkind) (d : decl) : Prop :=
-  match k with
-  | KUndefined | KNotAToken | KNotAMacro | KNotRuleOrToken => decl_refs_ok st d = false
-  | KUnknownAlias | KAmbiguousAlias => decl_aliases_ok false st d = false
-  | KUndefinedMode => decl_modes_ok st d = false
-  | KEmptyLiteral => forallb atom_lit_ok (decl_atoms d) = false
-  | KListEntryNotSimple | KListSepNotSimple => decl_lists_ok d = false
-  | _ => False
-  end.
-
-Lemma lexer_part_blame st id e acts k oi :
-  In (k, oi) (ck_lexpr st id e ++ flat_map (ck_action st id) acts) -> oi = Some id /\
-  ((k = KEmptyLiteral /\ forallb atom_lit_ok (lexpr_atoms e) = false) \/
-   ((k = KUndefined \/ k = KNotAMacro \/ k = KNotAToken) /\
-    forallb (atom_ref_ok st) (lexpr_atoms e) && forallb (action_ref_ok st) acts = false) \/
-   (k = KUndefinedMode /\ forallb (action_mode_ok st) acts = false)).
-Proof.
-  intros H. apply in_app_or in H. destruct H as [H|H].
-  - unfold ck_lexpr in H. apply in_flat_map in H. destruct H as [a [Ha H]].
-    destruct (ck_atom_blame _ _ _ _ _ H) as [X1 [[X2 X3]|[X2 X3]]]; (split; [exact X1|]).
-    + left. split; [exact X2|]. exact (forallb_false_in _ _ _ Ha X3).
-    + right. left. split; [tauto|]. rewrite (forallb_false_in _ _ _ Ha X3). reflexivity.
-  - apply in_flat_map in H. destruct H as [a [Ha H]].
-    destruct (ck_action_blame _ _ _ _ _ H) as [X1 [[X2 X3]|[X2 X3]]]; (split; [exact X1|]).
-    + right. right. split; [exact X2|]. exact (forallb_false_in _ _ _ Ha X3).
-    + right. left. split; [tauto|]. rewrite (forallb_false_in _ _ _ Ha X3). apply andb_false_r.
-Qed.
-
-Lemma ck_decl_blame st d k oi :
-  In (k, oi) (ck_decl st d) -> oi = Some (decl_id d) /\ check_fault st k d.
-Proof.
-  destruct d as [id n e a|id e a|id n e|id ns|id n body|id b n pr]; simpl ck_decl;
-    try contradiction.
-  - intros H. destruct (lexer_part_blame _ _ _ _ _ _ H) as [X1 [[X2 X3]|[[X2 X3]|[X2 X3]]]];
-      (split; [exact X1|]).
-    + subst k. exact X3.
-    + destruct X2 as [X2|[X2|X2]]; subst k; exact X3.
-    + subst k. exact X3.
-  - intros H. destruct (lexer_part_blame _ _ _ _ _ _ H) as [X1 [[X2 X3]|[[X2 X3]|[X2 X3]]]];
-      (split; [exact X1|]).
-    + subst k. exact X3.
-    + destruct X2 as [X2|[X2|X2]]; subst k; exact X3.
-    + subst k. exact X3.
-  - intros H. unfold ck_lexpr in H. apply in_flat_map in H. destruct H as [a [Ha H]].
-    destruct (ck_atom_blame _ _ _ _ _ H) as [X1 [[X2 X3]|[X2 X3]]]; (split; [exact X1|]).
-    + subst k. exact (forallb_false_in _ _ _ Ha X3).
-    + destruct X2; subst k; exact (forallb_false_in _ _ _ Ha X3).
-  - intros H. apply in_flat_map in H. destruct H as [pd [Hpd H]].
-    apply in_flat_map in H. destruct H as [t [Ht H]].
-    destruct (ck_pterm_blame _ _ _ _ _ H) as [X1 [[X2 X3]|[[X2 X3]|[X2 X3]]]]; (split; [exact X1|]);
-      destruct X2; subst k; simpl;
-      apply (forallb_false_in _ _ pd Hpd); exact (forallb_false_in _ _ t Ht X3).
-Qed.
-
-(* ---- pass 4: who is blamed --------------------------------------- *)
 Section Cycle.
 Variable tbl : names.
 
@@ -523,8 +418,207 @@ Proof.
   - unfold expand_fuel. simpl. lia.
   - intros m [].
 Qed.
+(* the walk of the Check pass: from macro [n] itself *)
+Lemma macro_walk_cycle n id e k oi :
+  lookup n tbl = Some (EMacro id e) ->
+  In (k, oi) (flat_map (expand_atom tbl (List.length tbl) [n]) (lexpr_atoms e)) ->
+  k = KMacroCycle /\ exists mid n' body, oi = Some mid /\ In (n', EMacro mid body) tbl /\
+    acyclic_atoms tbl (List.length tbl) [n'] (lexpr_atoms body) = false.
+Proof.
+  intros El H. apply in_flat_map in H. destruct H as [a [Ha H]].
+  apply (expand_atom_cycle (List.length tbl) [n] a k oi); try exact H.
+  - constructor; [intros []|constructor].
+  - intros x [X|[]]. subst x. apply lookup_In in El. apply (in_map fst) in El. exact El.
+  - simpl. lia.
+  - intros m [X|[]]. subst m. exists []. simpl. rewrite El. exact Ha.
+Qed.
 End Cycle.
 
+(* ---- pass 2: who is blamed --------------------------------------- *)
+Lemma forallb_false_in {A : Type} (p : A -> bool) (l : list A) (x : A) :
+  In x l -> p x = false -> forallb p l = false.
+Proof.
+  intros Hin Hp. destruct (forallb p l) eqn:E; [|reflexivity].
+  rewrite forallb_forall in E. rewrite (E x Hin) in Hp. discriminate.
+Qed.
+
+Lemma ck_atom_blame st id a k oi :
+  In (k, oi) (ck_atom st id a) -> oi = Some id /\
+  ((k = KEmptyLiteral /\ atom_lit_ok a = false) \/
+   ((k = KUndefined \/ k = KNotAMacro) /\ atom_ref_ok st a = false) \/
+   (k = KBadRange /\ atom_ranges_ok a = false)).
+Proof.
+  destruct a as [cps|n|c|alts]; simpl; try contradiction.
+  - destruct cps; simpl; [|contradiction]. intros [X|[]]. inversion X; subst. auto.
+  - destruct (lookup n (n_names st)) as [[]|]; simpl; try contradiction;
+      intros [X|[]]; inversion X; subst; (split; [reflexivity|]); right; left; auto.
+  - intros H. apply in_flat_map in H. destruct H as [it [Hit H]]. unfold ck_range in H.
+    destruct (snd it <? fst it)%Z eqn:E; [|contradiction]. destruct H as [X|[]].
+    inversion X; subst. split; [reflexivity|]. right. right. split; [reflexivity|].
+    apply (forallb_false_in _ _ it Hit). rewrite Z.ltb_antisym in E.
+    apply negb_true_iff in E. exact E.
+Qed.
+
+Lemma ck_action_blame st id a k oi :
+  In (k, oi) (ck_action st id a) -> oi = Some id /\
+  ((k = KUndefinedMode /\ action_mode_ok st a = false) \/
+   ((k = KUndefined \/ k = KNotAToken) /\ action_ref_ok st a = false)).
+Proof.
+  destruct a as [|m| |t]; simpl; try contradiction.
+  - destruct (mem_str m (n_modes st)); simpl; [contradiction|]. intros [X|[]]. inversion X; subst. auto.
+  - destruct (lookup t (n_names st)) as [[]|]; simpl; try contradiction;
+      intros [X|[]]; inversion X; subst; auto.
+Qed.
+
+Lemma ck_pterm_blame st id t k oi :
+  In (k, oi) (ck_pterm st id t) -> oi = Some id /\
+  (((k = KUndefined \/ k = KNotRuleOrToken) /\ pterm_ref_ok st t = false) \/
+   ((k = KUnknownAlias \/ k = KAmbiguousAlias) /\ pterm_alias_ok st t = false) \/
+   ((k = KListEntryNotSimple \/ k = KListSepNotSimple) /\ pterm_lists_ok t = false) \/
+   (k = KEmptyLiteral /\ pterm_lit_ok t = false)).
+Proof.
+  induction t as [n|lit| |c kk IH|e IHe sp IHsp opt]; simpl; try contradiction.
+  - destruct (lookup n (n_names st)) as [[]|]; simpl; try contradiction;
+      intros [X|[]]; inversion X; subst; auto.
+  - destruct (String.eqb lit ""); simpl.
+    + intros [X|[]]. inversion X; subst. auto 7.
+    + destruct (count_str lit (n_aliases st)) as [|[|c]]; simpl; try contradiction;
+        intros [X|[]]; inversion X; subst; auto 6.
+  - exact IH.
+  - intros H. apply in_app_or in H. destruct H as [H|H]; [|apply in_app_or in H; destruct H as [H|H]].
+    + destruct (IHe H) as [X1 [[X2 X3]|[[X2 X3]|[[X2 X3]|[X2 X3]]]]]; (split; [exact X1|]);
+        rewrite X3; simpl; auto 7.
+    + destruct (IHsp H) as [X1 [[X2 X3]|[[X2 X3]|[[X2 X3]|[X2 X3]]]]]; (split; [exact X1|]);
+        rewrite X3; simpl; rewrite ?andb_false_r; simpl; auto 7.
+    + destruct (pterm_simple e) eqn:Ee; simpl in H.
+      * destruct (pterm_simple sp) eqn:Es; simpl in H; [contradiction|].
+        destruct H as [X|[]]. inversion X; subst. split; [reflexivity|]. right. right. left.
+        rewrite ?andb_false_r. auto.
+      * destruct H as [X|[]]. inversion X; subst. split; [reflexivity|]. right. right. left.
+        rewrite ?andb_false_r. auto.
+Qed.
+
+Definition check_fault (st : nstate) (k : dkind) (d : decl) : Prop :=
+  match k with
+  | KUndefined | KNotAToken | KNotAMacro | KNotRuleOrToken => decl_refs_ok st d = false
+  | KUnknownAlias | KAmbiguousAlias => decl_aliases_ok st d = false
+  | KUndefinedMode => decl_modes_ok st d = false
+  | KEmptyLiteral => decl_literals_ok d = false
+  | KBadRange => forallb atom_ranges_ok (decl_atoms d) = false
+  | KListEntryNotSimple | KListSepNotSimple => decl_lists_ok d = false
+  | _ => False
+  end.
+
+Lemma lexpr_part_blame st id e k oi :
+  In (k, oi) (ck_lexpr st id e) -> oi = Some id /\
+  ((k = KEmptyLiteral /\ forallb atom_lit_ok (lexpr_atoms e) = false) \/
+   ((k = KUndefined \/ k = KNotAMacro) /\ forallb (atom_ref_ok st) (lexpr_atoms e) = false) \/
+   (k = KBadRange /\ forallb atom_ranges_ok (lexpr_atoms e) = false)).
+Proof.
+  unfold ck_lexpr. intros H. apply in_flat_map in H. destruct H as [a [Ha H]].
+  destruct (ck_atom_blame _ _ _ _ _ H) as [X1 [[X2 X3]|[[X2 X3]|[X2 X3]]]]; (split; [exact X1|]).
+  - left. split; [exact X2|]. exact (forallb_false_in _ _ _ Ha X3).
+  - right. left. split; [exact X2|]. exact (forallb_false_in _ _ _ Ha X3).
+  - right. right. split; [exact X2|]. exact (forallb_false_in _ _ _ Ha X3).
+Qed.
+
+Lemma lexer_part_blame st id e acts k oi :
+  In (k, oi) (ck_lexpr st id e ++ flat_map (ck_action st id) acts) -> oi = Some id /\
+  ((k = KEmptyLiteral /\ forallb atom_lit_ok (lexpr_atoms e) = false) \/
+   ((k = KUndefined \/ k = KNotAMacro \/ k = KNotAToken) /\
+    forallb (atom_ref_ok st) (lexpr_atoms e) && forallb (action_ref_ok st) acts = false) \/
+   (k = KUndefinedMode /\ forallb (action_mode_ok st) acts = false) \/
+   (k = KBadRange /\ forallb atom_ranges_ok (lexpr_atoms e) = false)).
+Proof.
+  intros H. apply in_app_or in H. destruct H as [H|H].
+  - destruct (lexpr_part_blame _ _ _ _ _ H) as [X1 [[X2 X3]|[[X2 X3]|[X2 X3]]]]; (split; [exact X1|]).
+    + left. auto.
+    + right. left. split; [tauto|]. rewrite X3. reflexivity.
+    + right. right. right. auto.
+  - apply in_flat_map in H. destruct H as [a [Ha H]].
+    destruct (ck_action_blame _ _ _ _ _ H) as [X1 [[X2 X3]|[X2 X3]]]; (split; [exact X1|]).
+    + right. right. left. split; [exact X2|]. exact (forallb_false_in _ _ _ Ha X3).
+    + right. left. split; [tauto|]. rewrite (forallb_false_in _ _ _ Ha X3). apply andb_false_r.
+Qed.
+
+Definition cycle_blame (tbl : names) (k : dkind) (oi : option nat) : Prop :=
+  k = KMacroCycle /\ exists mid n body, oi = Some mid /\ In (n, EMacro mid body) tbl /\
+    acyclic_atoms tbl (List.length tbl) [n] (lexpr_atoms body) = false.
+
+Lemma ck_decl_blame st err d k oi :
+  (forall id n e, d = DMacro id n e -> lookup n (n_names st) = Some (EMacro id e)) ->
+  In (k, oi) (ck_decl st err d) ->
+  cycle_blame (n_names st) k oi \/ (oi = Some (decl_id d) /\ check_fault st k d).
+Proof.
+  intros Hm.
+  destruct d as [id n e a|id e a|id n e|id ns|id n body|id b n pr]; simpl ck_decl;
+    try contradiction.
+  - intros H. right.
+    destruct (lexer_part_blame _ _ _ _ _ _ H) as [X1 [[X2 X3]|[[X2 X3]|[[X2 X3]|[X2 X3]]]]];
+      (split; [exact X1|]).
+    + subst k. simpl. unfold decl_literals_ok, decl_atoms. simpl. rewrite X3. reflexivity.
+    + destruct X2 as [X2|[X2|X2]]; subst k; exact X3.
+    + subst k. exact X3.
+    + subst k. exact X3.
+  - intros H. right.
+    destruct (lexer_part_blame _ _ _ _ _ _ H) as [X1 [[X2 X3]|[[X2 X3]|[[X2 X3]|[X2 X3]]]]];
+      (split; [exact X1|]).
+    + subst k. simpl. unfold decl_literals_ok, decl_atoms. simpl. rewrite X3. reflexivity.
+    + destruct X2 as [X2|[X2|X2]]; subst k; exact X3.
+    + subst k. exact X3.
+    + subst k. exact X3.
+  - intros H. apply in_app_or in H. destruct H as [H|H].
+    + right. destruct (lexpr_part_blame _ _ _ _ _ H) as [X1 [[X2 X3]|[[X2 X3]|[X2 X3]]]];
+        (split; [exact X1|]).
+      * subst k. simpl. unfold decl_literals_ok, decl_atoms. simpl. rewrite X3. reflexivity.
+      * destruct X2; subst k; exact X3.
+      * subst k. exact X3.
+    + left. destruct (err || nonempty (ck_lexpr st id e)); [contradiction|].
+      apply macro_cycle_diag_In in H.
+      exact (macro_walk_cycle _ n id e k oi (Hm id n e eq_refl) H).
+  - intros H. right. apply in_flat_map in H. destruct H as [pd [Hpd H]].
+    apply in_flat_map in H. destruct H as [t [Ht H]].
+    destruct (ck_pterm_blame _ _ _ _ _ H) as [X1 [[X2 X3]|[[X2 X3]|[[X2 X3]|[X2 X3]]]]];
+      (split; [exact X1|]).
+    + destruct X2; subst k; simpl;
+        apply (forallb_false_in _ _ pd Hpd); exact (forallb_false_in _ _ t Ht X3).
+    + destruct X2; subst k; simpl;
+        apply (forallb_false_in _ _ pd Hpd); exact (forallb_false_in _ _ t Ht X3).
+    + destruct X2; subst k; simpl;
+        apply (forallb_false_in _ _ pd Hpd); exact (forallb_false_in _ _ t Ht X3).
+    + subst k. simpl. unfold decl_literals_ok. simpl.
+      rewrite (forallb_false_in _ _ pd Hpd (forallb_false_in _ _ t Ht X3)). reflexivity.
+Qed.
+
+Lemma ck_decls_In st x : forall ds err,
+  In x (ck_decls st err ds) -> exists d err', In d ds /\ In x (ck_decl st err' d).
+Proof.
+  induction ds as [|d r IH]; intros err; simpl; [contradiction|].
+  intros H. apply in_app_or in H. destruct H as [H|H].
+  - exists d, err. split; [left; reflexivity|exact H].
+  - destruct (IH _ H) as [d' [err' [H1 H2]]]. exists d', err'. split; [right; exact H1|exact H2].
+Qed.
+
+Lemma lookup_nodup n e : forall t, NoDup (map fst t) -> In (n, e) t -> lookup n t = Some e.
+Proof.
+  induction t as [|[m e'] t IH]; simpl; [contradiction|].
+  intros Hnd [X|X].
+  - inversion X; subst. rewrite String.eqb_refl. reflexivity.
+  - inversion Hnd; subst. destruct (String.eqb n m) eqn:E.
+    + apply String.eqb_eq in E. subst m. exfalso. apply H1. apply (in_map fst) in X. exact X.
+    + apply IH; assumption.
+Qed.
+
+Lemma lookup_decl_macro s id n e :
+  wf_unique s = true -> In (DMacro id n e) (all_decls s) ->
+  lookup n (n_names (canon s)) = Some (EMacro id e).
+Proof.
+  intros Hu Hin. apply lookup_nodup.
+  - apply wf_unique_NoDup. exact Hu.
+  - simpl. apply in_flat_map. exists (DMacro id n e). split; [exact Hin|left; reflexivity].
+Qed.
+
+(* ---- pass 4: who is blamed --------------------------------------- *)
 Lemma token_actions_kinds id acts k oi :
   In (k, oi) (token_actions id acts) -> oi = Some id /\ (k = KTokenDiscard \/ k = KTokenEmit).
 Proof.
@@ -552,9 +646,7 @@ Definition gen_fault (k : dkind) (d : decl) : Prop :=
 
 Lemma gen_decl_blame st d k oi :
   In (k, oi) (gen_decl st d) ->
-  (k = KMacroCycle /\ exists mid n body, oi = Some mid /\ In (n, EMacro mid body) (n_names st) /\
-     acyclic_atoms (n_names st) (List.length (n_names st)) [n] (lexpr_atoms body) = false) \/
-  (oi = Some (decl_id d) /\ gen_fault k d).
+  cycle_blame (n_names st) k oi \/ (oi = Some (decl_id d) /\ gen_fault k d).
 Proof.
   destruct d as [id n e a|id e a|id n e|id ns|id n body|id b n pr]; simpl gen_decl;
     try contradiction; intros H; apply in_app_or in H; destruct H as [H|H];
@@ -573,29 +665,40 @@ Proof.
     destruct X2 as [X2|[X2|X2]]; subst k; exact F.
 Qed.
 
+
 (* ---- A3 ---------------------------------------------------------- *)
+Lemma cycle_blame_fault s k oi :
+  cycle_blame (n_names (canon s)) k oi -> exists i, oi = Some i /\ fault_in s k i.
+Proof.
+  intros [X1 [mid [n [body [X2 [X3 X4]]]]]].
+  apply In_macro_decl in X3. apply in_split in X3. destruct X3 as [pre [post X3]].
+  exists mid. split; [exact X2|]. exists pre, (DMacro mid n body), post.
+  split; [exact X3|]. split; [reflexivity|]. subst k. simpl. split; [eauto|exact X4].
+Qed.
+
 Theorem reject_points_into_fault : forall s k oi,
   In (k, oi) (analyze s) ->
   (k = KStartUndefined /\ oi = None) \/ (exists i, oi = Some i /\ fault_in s k i).
 Proof.
   intros s k oi. unfold analyze. destruct (pass_names s) as [st d1] eqn:E.
   destruct d1 as [|x d1]; [|intros H; right; exact (pass_names_blame _ _ _ _ _ E H)].
-  apply pass_names_char in E. destruct E as [_ [_ [_ E]]]. subst st.
+  apply pass_names_char in E. destruct E as [_ [Eu [_ E]]]. subst st.
   destruct (pass_check (canon s) s) as [|y d2] eqn:E2.
   - unfold pass_gen. destruct (flat_map (gen_decl (canon s)) (all_decls s)) as [|z d3] eqn:E3.
     + destruct (n_rules (canon s) && negb (n_start (canon s))); [|contradiction].
       intros [X|[]]. inversion X; subst. left. auto.
     + rewrite <- E3. intros H. right. apply in_flat_map in H. destruct H as [d [Hd H]].
-      destruct (gen_decl_blame _ _ _ _ H) as [[X1 [mid [n [body [X2 [X3 X4]]]]]]|[X1 X2]].
-      * apply In_macro_decl in X3. apply in_split in X3. destruct X3 as [pre [post X3]].
-        exists mid. split; [exact X2|]. exists pre, (DMacro mid n body), post.
-        split; [exact X3|]. split; [reflexivity|]. subst k. simpl. split; [eauto|exact X4].
-      * apply in_split in Hd. destruct Hd as [pre [post Hd]].
-        exists (decl_id d). split; [exact X1|]. exists pre, d, post.
-        split; [exact Hd|]. split; [reflexivity|].
-        destruct k; simpl in X2; try contradiction; exact X2.
-  - rewrite <- E2. intros H. right. unfold pass_check in H. apply in_flat_map in H.
-    destruct H as [d [Hd H]]. destruct (ck_decl_blame _ _ _ _ H) as [X1 X2].
+      destruct (gen_decl_blame _ _ _ _ H) as [X|[X1 X2]]; [exact (cycle_blame_fault _ _ _ X)|].
+      apply in_split in Hd. destruct Hd as [pre [post Hd]].
+      exists (decl_id d). split; [exact X1|]. exists pre, d, post.
+      split; [exact Hd|]. split; [reflexivity|].
+      destruct k; simpl in X2; try contradiction; exact X2.
+  - rewrite <- E2. intros H. right. unfold pass_check in H.
+    apply ck_decls_In in H. destruct H as [d [err' [Hd H]]].
+    assert (Hm : forall id n e, d = DMacro id n e ->
+                 lookup n (n_names (canon s)) = Some (EMacro id e)).
+    { intros id n e X. subst d. apply lookup_decl_macro; assumption. }
+    destruct (ck_decl_blame _ _ _ _ _ Hm H) as [X|[X1 X2]]; [exact (cycle_blame_fault _ _ _ X)|].
     apply in_split in Hd. destruct Hd as [pre [post Hd]].
     exists (decl_id d). split; [exact X1|]. exists pre, d, post.
     split; [exact Hd|]. split; [reflexivity|].
